@@ -37,16 +37,16 @@ type Resp struct {
 
 // Case is one hostile-response scenario.
 type Case struct {
-	ID       int
-	Kind     string // feeder name or "distributor"
-	Origin   string
-	Vkey     string
-	URL      string
-	Holds    []byte // checkpoint the witness holds beforehand (nil: nothing)
-	First    Resp   // answer to the checkpoint / log-info request (distributor: to the PUT)
-	Other    Resp   // answer to every other request
-	Skey     string // witness key
-	Desc     string
+	ID         int
+	Kind       string // feeder name or "distributor"
+	Origin     string
+	Vkey       string
+	URL        string
+	Holds      []byte // checkpoint the witness holds beforehand (nil: nothing)
+	First      Resp   // answer to the checkpoint / log-info request (distributor: to the PUT)
+	Other      Resp   // answer to every other request
+	Skey       string // witness key
+	Desc       string
 	DeadlineMS int
 }
 
